@@ -6,6 +6,7 @@ package main
 import (
 	"bufio"
 	"bytes"
+	"errors"
 	"fmt"
 	"io"
 	"strings"
@@ -274,6 +275,14 @@ func main() {
 						judgeSrc(part, id+".onebyte", tampered, desc+" [source: one byte per Read]", 2)
 					}
 					judgeSrc(part, id+".dataerr", tampered, desc+" [source: final data delivered together with io.EOF]", 3)
+					judgeSrc(part, id+".iocopy", tampered, desc+" [plaintext consumed with io.Copy]", 4)
+					judgeSrc(part, id+".armored", tampered, desc+" [file armored after the change]", 6)
+				}
+				if part == "extension" {
+					judgeSrc(part, id+".junction-fault", tampered, desc+" [source fails once where the original file ended]", 5)
+					if strings.TrimSpace(string(tampered[len(file):])) != "" { // whitespace after the END line is tolerated by the armor format
+						judgeSrc(part, id+".armor-tail", tampered, desc+" [original file armored, the appended bytes follow the END line]", 7)
+					}
 				}
 			}
 			judgeSrc = func(part, id string, tampered []byte, desc string, src int) {
@@ -286,8 +295,18 @@ func main() {
 					rd = iotest.OneByteReader(rd)
 				case 3:
 					rd = iotest.DataErrReader(rd)
+				case 5:
+					rd = &faultAt{data: tampered, at: len(file)}
+				case 6:
+					rd = strings.NewReader(refage.Armor(tampered))
+				case 7:
+					rd = strings.NewReader(refage.Armor(file) + string(tampered[len(file):]))
 				}
-				res := lab.Decrypt(rd, false, 0, x.Id)
+				bs := 0
+				if src == 4 {
+					bs = -1
+				}
+				res := lab.Decrypt(rd, src == 6 || src == 7, bs, x.Id)
 				c.Outcome(res.Class())
 				det := map[string]interface{}{"plaintext_len": n, "mutation": desc, "result": res.Class(), "decrypt_err": lab.ErrText(res.DecryptErr), "read_err": lab.ErrText(res.ReadErr), "released": len(res.Plain)}
 				switch {
@@ -445,4 +464,29 @@ func main() {
 			c.Sample(map[string]interface{}{"chunks": nch, "mutation": "chunk 0 copied over chunk 256"})
 		}
 	})
+}
+
+// faultAt delivers data, failing once (with a non-EOF error and no bytes) when the offset at is reached.
+type faultAt struct {
+	data  []byte
+	pos   int
+	at    int
+	fired bool
+}
+
+func (f *faultAt) Read(p []byte) (int, error) {
+	if f.pos == f.at && !f.fired {
+		f.fired = true
+		return 0, errors.New("connection reset by peer")
+	}
+	if f.pos >= len(f.data) {
+		return 0, io.EOF
+	}
+	end := len(f.data)
+	if f.pos < f.at && end > f.at {
+		end = f.at
+	}
+	n := copy(p, f.data[f.pos:end])
+	f.pos += n
+	return n, nil
 }
